@@ -87,7 +87,21 @@ def gen_expansion(tier, rng, prefix, count):
         n = cap + 1
         subs = ["D%d,0,1" % (k + 1) for k in range(n)]
         reads = ["R%d" % (k + 1) for k in range(n)]
-        v = rng.choice(["highwater", "expire", "twobursts"])
+        v = rng.choice(["highwater", "expire", "twobursts", "race", "busy_fire"])
+        if v == "race":
+            # two submitters compete for the last expansion slot while the queue is full
+            pre = ["D%d,0,1" % (k + 1) for k in range(cap)]
+            ths = [pre + ["/", "D21,0,1", "/"] + ["R%d" % (k + 1) for k in range(cap)] + ["R21"],
+                   ["/", "D22,0,1", "/", "R22"], ["/", "W%d" % cap, "G1", "/"]]
+            o = dict(expect_highwater=cap)
+            out.append(S("%s%d" % (prefix, i), ths, dfs(tier, 8000, 80000) if rng.random() < 0.5 else rnd(tier, rng, 800, 6000), workers=workers, limit=limit, autostart=1, **o))
+            continue
+        if v == "busy_fire":
+            # every worker (fixed and expanded) is executing: no idle timer may be armed, Fire finds none
+            ths = [subs + ["/"] + reads, ["W%d" % cap, "F0", "G1", "/"]]
+            o = dict(expect_highwater=cap, expect_res_1_1="b0")
+            out.append(S("%s%d" % (prefix, i), ths, rnd(tier, rng, 500, 5000), workers=workers, limit=limit, autostart=1, **o))
+            continue
         if v == "highwater":
             ths = [subs + ["/"] + reads, ["W%d" % cap, "G1", "/"]]
             o = dict(expect_highwater=cap)
